@@ -34,3 +34,18 @@ Definition half (test : bool) (pr : screen * screen) : screen := if test then sn
 Definition lifecycle (v : variant) (p : screen) (sel : list bool) (test : bool) (ops : list op) : result screen :=
   dor pr <- holdout_split p sel;
   history v ops (half test pr).
+
+(* ==== appended: the hold-out at the ID / MAPPING level (C03 source link of
+   create_plate_balanced_holdout_set_among_masked_plates, Generated/SrcHoldoutIds.v, Proofs/C03Source_Holdout.v).
+   WHICH rows are held out is what the loop of the function computes from the recorded rng.choice answers
+   (RetroHoldout.ho_plates, C11's model of that loop, read on the rows of the screen); the two halves are then
+   [holdout_split] on that selection vector: both constructor calls receive the parent's mappings. ==== *)
+From Batchie Require Model.Retro Model.RetroHoldout.
+Definition balanced_holdout_ids (num : Z) (den : positive) (counts : option (list Z)) (p : screen) (ds : list Retro.draw)
+  : result ((screen * screen) * list Retro.draw) :=
+  if (num <? 0) || (Zpos den <? num) then Err 5
+  else
+    let n := length (s_rows p) in
+    dor r <- RetroHoldout.ho_plates n num den (s_rows p) (Retro.plate_names_of (s_rows p)) counts ds (repeat false n);
+    dor pr <- holdout_split p (fst r);
+    Ok (pr, snd r).
